@@ -181,6 +181,7 @@ fn run_episode(
     let mut total_clients = 0u64;
     let mut switches = 0u64;
     let mut switches_in_build = 0u64;
+    let mut lock_handovers = 0u64;
     let mut decisions_total = 0u64;
     let mut site_hits = vec![0u64; SITES.len()];
     let mut nontrivial_fps: Vec<u64> = vec![];
@@ -213,6 +214,7 @@ fn run_episode(
         total_clients += spec.clients.len() as u64;
         switches += res.switches;
         switches_in_build += res.switches_in_build;
+        lock_handovers += res.lock_handovers;
         decisions_total += res.decisions.len() as u64;
         hash_streams += spec.clients.len() as u64;
         for (i, h) in res.site_hits.iter().enumerate() {
@@ -299,6 +301,7 @@ fn run_episode(
         "hash_streams": hash_streams,
         "switches": switches,
         "switches_in_build": switches_in_build,
+        "lock_handovers": lock_handovers,
         "decisions": decisions_total,
         "stats": {
             "build_after_build": stats.build_after_build,
@@ -798,11 +801,19 @@ fn mode_run(args: &[String]) -> i32 {
                 Ok(v) => {
                     if double_every > 0 && i % double_every == 0 {
                         match spawn_worker(verif_seed, &tier, i, n_sys, sample, 180) {
-                            Ok(v2) => doubles.lock().unwrap().push((
-                                i,
-                                format!("{}/{}", v["log_hash"], v["key_digest"]),
-                                format!("{}/{}", v2["log_hash"], v2["key_digest"]),
-                            )),
+                            Ok(v2) => {
+                                // a run in which the scheduler had to break a lock held across a switch point is
+                                // timing-dependent by construction (only possible with such a lock in the code
+                                // under test): it is exempt from the determinism comparison
+                                let exempt = v["lock_handovers"].as_u64().unwrap_or(0) > 0 || v2["lock_handovers"].as_u64().unwrap_or(0) > 0;
+                                if !exempt {
+                                    doubles.lock().unwrap().push((
+                                        i,
+                                        format!("{}/{}", v["log_hash"], v["key_digest"]),
+                                        format!("{}/{}", v2["log_hash"], v2["key_digest"]),
+                                    ))
+                                }
+                            }
                             Err(e) => errors.lock().unwrap().push(e),
                         }
                     }
@@ -854,7 +865,7 @@ fn mode_run(args: &[String]) -> i32 {
     let mut violations: Vec<(u64, Value, Value)> = vec![]; // (episode, violation, executed runs)
     for (i, v) in &results {
         for k in [
-            "runs", "clients", "events", "builds", "getrandom_calls", "hash_streams", "switches", "switches_in_build", "decisions", "schedule_fps",
+            "runs", "clients", "events", "builds", "getrandom_calls", "hash_streams", "switches", "switches_in_build", "lock_handovers", "decisions", "schedule_fps",
         ] {
             *agg.entry(k.to_string()).or_insert(0) += v[k].as_u64().unwrap_or(0);
         }
@@ -1064,7 +1075,7 @@ fn mode_run(args: &[String]) -> i32 {
             "runs_per_hour": (runs_total as f64 / wall * 3600.0) as u64,
             "episodes_per_hour": (n_eps as f64 / wall * 3600.0) as u64,
             "simulated_time": "none: grex reads no clock and sets no timer; logical steps are reported instead",
-            "logical_steps": {"api_events": agg.get("events"), "scheduler_decisions": agg.get("decisions"), "context_switches": agg.get("switches"), "context_switches_inside_build": agg.get("switches_in_build")},
+            "logical_steps": {"api_events": agg.get("events"), "scheduler_decisions": agg.get("decisions"), "context_switches": agg.get("switches"), "context_switches_inside_build": agg.get("switches_in_build"), "handovers_forced_by_a_lock_held_across_a_switch_point": agg.get("lock_handovers")},
             "distinct_schedules_sum_over_episodes": agg.get("schedule_fps"),
             "hash_key_streams": agg.get("hash_streams"),
             "getrandom_calls_served": agg.get("getrandom_calls"),
